@@ -72,7 +72,7 @@ def gen_actrl(rng, p=0.35):
     for _ in range(rng.randint(1, 9)):
         if rng.random() < 0.25: rows.append([-1, rng.randint(0, 3), rng.randint(0, 3)])
         else: rows.append([rng.randrange(n_acc), rng.choice([0, 1, 1, 2, 5]), rng.choice([0, 1, 1, 3, 7])])
-    return {'rows': rows, 'plus3': True}
+    return {'rows': rows, 'plus3': rng.random() < 0.5}   # False: the documented shape (len(lines), 3)
 
 
 ORDER_KINDS = ['random', 'random', 'random', 'reversed', 'lane_major', 'op_major', 'last_op_first', 'odd_even', 'canonical']
@@ -105,7 +105,7 @@ def shrink_wave_case(case):
         for j in range(len(case['batches'])): yield dict(case, batches=case['batches'][:j] + case['batches'][j + 1:])
     if case['sims'] > 1: yield dict(case, sims=case['sims'] - 1)
     if case.get('actrl'): yield dict(case, actrl=None)
-    if case.get('caps'): yield dict(case, caps=None)
+    if case.get('caps') and not case.get('keep_caps'): yield dict(case, caps=None)
     d = case['delays']
     if len(d['rows']) > 1:
         yield dict(case, delays=dict(d, rows=d['rows'][:1]))
